@@ -12,4 +12,36 @@ broadcast use {vstd::std_specs::hash::group_hash_axioms, axh::axiom_uuid_key_mod
 //@include prelude/taskstd.rs
 //@include regions/taskdata_impl.rs
 //@include regions/task_impl.rs
+// ---- functions these properties depend on that are NOT verified (outside the verifier's reach): hashed; a change -> UNDECIDED
+//@watch C19 :: src/task/task.rs :: impl Task :: fn add_tag
+//@watch C19 :: src/task/task.rs :: impl Task :: fn remove_tag
+//@watch C19 :: src/task/task.rs :: impl Task :: fn add_annotation
+//@watch C19 :: src/task/task.rs :: impl Task :: fn remove_annotation
+//@watch C19 :: src/task/task.rs :: impl Task :: fn set_due
+//@watch C19 :: src/task/task.rs :: impl Task :: fn set_uda
+//@watch C19 :: src/task/task.rs :: impl Task :: fn remove_uda
+//@watch C19 :: src/task/task.rs :: impl Task :: fn set_legacy_uda
+//@watch C19 :: src/task/task.rs :: impl Task :: fn set_user_defined_attribute
+//@watch C19 :: src/task/task.rs :: impl Task :: fn remove_legacy_uda
+//@watch C19 :: src/task/task.rs :: impl Task :: fn remove_user_defined_attribute
+//@watch C19 :: src/task/task.rs :: impl Task :: fn add_dependency
+//@watch C19 :: src/task/task.rs :: impl Task :: fn remove_dependency
+//@watch C19 :: src/task/task.rs :: impl Task :: fn has_tag
+//@watch C19 :: src/task/task.rs :: impl Task :: fn has_synthetic_tag
+//@watch C18 :: src/task/task.rs :: impl Task :: fn get_tags
+//@watch C18 :: src/task/task.rs :: impl Task :: fn get_annotations
+//@watch C18 :: src/task/task.rs :: impl Task :: fn get_udas
+//@watch C18 :: src/task/task.rs :: impl Task :: fn get_dependencies
+//@watch C18 :: src/task/task.rs :: impl Task :: fn get_status
+//@watch C18 :: src/task/task.rs :: impl Task :: fn get_description
+//@watch C18 :: src/task/task.rs :: impl Task :: fn get_priority
+//@watch C18 :: src/task/task.rs :: impl Task :: fn get_uda
+//@watch C18 :: src/task/task.rs :: impl Task :: fn get_legacy_uda
+//@watch C18 :: src/task/task.rs :: impl Task :: fn get_user_defined_attribute
+//@watch C18 :: src/task/task.rs :: impl Task :: fn get_value
+//@watch C18 :: src/workingset.rs :: impl WorkingSet :: fn new
+//@watch C18 :: src/workingset.rs :: impl WorkingSet :: fn len
+//@watch C18 :: src/workingset.rs :: impl WorkingSet :: fn is_empty
+//@watch C18 :: src/workingset.rs :: impl WorkingSet :: fn by_uuid
+//@watch C18 :: src/workingset.rs :: impl WorkingSet :: fn iter
 //@include prelude/tail.rs
